@@ -172,6 +172,7 @@ func installCounterHook() {
 }
 
 type mvExec struct {
+	liveIter bool // a long-lived iterator is open (it holds a barrier session)
 	in      *mvInput
 	db      *nitro.Nitro
 	arena   *Arena
@@ -502,7 +503,8 @@ func (e *mvExec) checkPhysical(ph []physVer, afterGC bool) {
 		if stats["memory_used"] != mem {
 			e.fail("c14-stats", fmt.Sprintf("statistics at quiescence: memory_used=%d, the linked nodes and their items account for %d bytes", stats["memory_used"], mem))
 		}
-		if e.in.MM && stats["node_allocs"]-stats["node_frees"] != int64(cnt) {
+		// an open iterator holds a barrier session: nodes unlinked meanwhile are rightly not yet freed
+		if e.in.MM && !e.liveIter && stats["node_allocs"]-stats["node_frees"] != int64(cnt) {
 			e.fail("c14-stats", fmt.Sprintf("statistics at quiescence: node_allocs-node_frees=%d, %d nodes are linked", stats["node_allocs"]-stats["node_frees"], cnt))
 		}
 	}
@@ -549,6 +551,7 @@ type mvGen struct {
 	nkeys  int
 	ops    []mvOp
 	valLen int
+	protect uint32 // the last handle of this snapshot is not closed (a live iterator is reading it)
 }
 
 func (g *mvGen) item(k int) []byte {
@@ -616,7 +619,11 @@ func (g *mvGen) step(allowDrain bool) {
 		g.do(mvOp{Op: "snap"})
 	case x < 80:
 		if os := g.openSnaps(); len(os) > 0 {
-			g.do(mvOp{Op: "close", Sn: int(os[r.Intn(len(os))])})
+			sn := os[r.Intn(len(os))]
+			if g.protect != 0 && sn == g.protect && ref.snapRef[sn] <= 1 {
+				return
+			}
+			g.do(mvOp{Op: "close", Sn: int(sn)})
 		}
 	case x < 84:
 		// Open any snapshot ever created (released ones must refuse)
@@ -969,9 +976,14 @@ func runVisit(in *mvInput, r *rand.Rand, n int, sink *CaseSink, replay bool) {
 }
 
 func mvCommand(prop, mode string, rule string) func(a runArgs) error {
+	return mvCommandTie(prop, mode, "Tie.MvccTie", rule)
+}
+
+func mvCommandTie(prop, mode, tie string, rule string) func(a runArgs) error {
 	return func(a runArgs) error {
 		installCounterHook()
-		sink := NewSink(a.out, prop, "Tie.MvccTie", a.seed)
+		sink := NewSink(a.out, prop, tie, a.seed)
+
 		sink.perFile = 60
 		sink.meta.Rule = rule
 		if a.replay != "" {
@@ -996,6 +1008,8 @@ func mvCommand(prop, mode string, rule string) func(a runArgs) error {
 				runBackup(&in, r, in.GenN, sink, !regen)
 			case "iter":
 				runIter(&in, r, in.GenN, sink, !regen)
+			case "live":
+				runLive(&in, r, in.GenN, sink)
 			case "visit":
 				runVisit(&in, r, in.GenN, sink, !regen)
 			default:
@@ -1013,6 +1027,10 @@ func mvCommand(prop, mode string, rule string) func(a runArgs) error {
 			case "iter":
 				sink.Begin(in)
 				runIter(in, r, n, sink, false)
+			case "live":
+				in.GenN = 10 + n/2
+				sink.Begin(in)
+				runLive(in, r, in.GenN, sink)
 			case "visit":
 				sink.Begin(in)
 				runVisit(in, r, n, sink, false)
@@ -1102,6 +1120,7 @@ func init() {
 	commands["mvcc-backup"] = mvCommand("C05", "backup", "a generated history (both comparators, both memory modes), StoreToDisk of a random open snapshot (often the oldest) with concurrency 1/2/8, the real range pivots fed to the model, LoadFromDisk into a fresh instance with the same configuration; compared: the shard files and recorded checksums byte for byte, the restored content, then a further 15..40-op history on the restored instance against the model started from the restored state; non-trivial = some key has several physical versions and the snapshot holds >=2 items")
 	commands["mvcc-alloc"] = mvCommand("C07", "alloc", "histories as for C06 with user-managed memory on the guard allocator (every block its own mmap, PROT_NONE after free, never reused): after all snapshots are closed and Close() returned, no block may be live, freed twice or unknown")
 	commands["mvcc-gc"] = mvCommand("C06", "gc", "as mvcc, plus forced GC() + wait-for-quiescence points at which the physical level-0 content (item, bornSn, deadSn) is compared with the model after draining its workers; oracle: live/visible versions present, collectable versions gone")
+	commands["mvcc-live"] = mvCommandTie("C01", "live", "Tie.LiveTie", "a generated history, then a LONG-LIVED iterator on a random open snapshot (refresh rate 0/1/2/3/7): SeekFirst/Seek, then Next steps, with 0..6 generated operations of the history generator (Put/Delete/DeleteNode of the snapshot's keys and others, NewSnapshot, Open/Close of other snapshots, GC, drained workers) between any two iterator steps; real collection workers running; iterator observations (Valid, bytes, node identity) and the outputs of the interleaved operations are compared with the model; oracle: the scan yields exactly the items the snapshot held at creation; non-trivial = >= 3 interleaved segments that changed the physical store and a view of >= 2 items")
 	commands["mvcc-iter"] = mvCommand("C09", "iter", "a generated history, then an iterator script (SeekFirst/Seek present-absent-below-above/Next/Refresh/SetRefreshRate in {0,1,2,3,7}) on a random open snapshot; non-trivial = the store physically holds versions invisible to that snapshot and the view has >=2 items")
 	commands["mvcc-visit"] = mvCommand("C10", "visit", "a generated history, then Visitor on a random (often the oldest) open snapshot with shards in {1,2,3,4,5,8,16,64}, concurrency in {1,2,8}, the real pivots read through GetRangeSplitItems and fed to the model; 1 in 4 runs injects a callback error (oracle only); non-trivial = some key has several physical versions, view >= 2 items, shards > 1")
 }
